@@ -26,8 +26,12 @@
      cache, is kept for the new cache along every run and survives the write/read cycle:
      ViewR6-R8.v);
    * C04_overlay_answers: during the validation of cached results (overlay of created files)
-     exists / is_file / is_dir / list_dir answer like POSIX on the overlay tree (walk, get_size,
-     read against an overlay: not proved).
+     exists / is_file / is_dir / list_dir answer like POSIX on the overlay tree;
+     C04_overlay_answers_all (Proofs/ViewH2.v, SimB2.v, SimG7.v, SimK1-3.v): every query kind against an overlay, walk,
+     read and get_size included; for get_size the POSIX form needs "every overlay directory asked about is physically
+     a directory": C04_overlay_get_size_of_an_overlay_only_directory shows the model (and the code: os.path.getsize on
+     the physical path) raising FileNotFoundError there - a directory's size is not an observation the property
+     defines, the effect is a lost cache hit (SimK3.v), never a wrong answer to user code.
    Side conditions: creatable names (no over-long component), trees shallower than the walk
    fuel (model artefact), a well-formed previous cache (old_ok), no injected fault.
    Those parts, and the tie to the code, are decided by T2/T3 (every answer of every
@@ -39,7 +43,8 @@ From FB.Spec Require Import Ref.
 From FB.Model Require Import Build.
 From FB.Spec Require Import Prog.
 From FB.Model Require Import Run Frame.
-From FB.Proofs Require Import ReplayLaws ViewDefs ViewLemmas ViewScan ViewQueries ViewAnswers ViewInit ViewClean ViewXDefs ViewXOld ViewXRun ViewXSetup ViewXReach ViewOverlay ViewOverlay2 ViewR2 ViewR3 ViewR9.
+From FB.Model Require Core.
+From FB.Proofs Require Import ReplayLaws ViewDefs ViewLemmas ViewScan ViewQueries ViewAnswers ViewInit ViewClean ViewXDefs ViewXOld ViewXRun ViewXSetup ViewXReach ViewOverlay ViewOverlay2 ViewR2 ViewR3 ViewR9 CmpLaws SimK1.
 (* T1g: Model/BuildDirs.v and Model/CreatedFiles.v are equal to the translation of build_dirs.py / created_files.py
    (Gen/BookGen.v, regenerated on every run); a change of those sources that the model does not follow breaks this import *)
 From FB.Proofs Require BookGenLaws.
@@ -111,6 +116,22 @@ Theorem C04_overlay_answers : forall w c q, BInv w -> CInv w c ->
   match q with QExists _ | QIsFile _ | QIsDir _ | QListDir _ => True | _ => False end ->
   yields (exec_query q (Some c)) w (to_res (spec_answer_raw (overlay_fs w c) q)).
 Proof. exact exec_query_overlay. Qed.
+
+(* every query kind against an overlay (validation of cached results) *)
+Theorem C04_overlay_answers_all : forall w c q, BInv w -> CInv w c ->
+  path_ok (spec_query_path q) = true ->
+  (forall p, mem_path p (cf_dirs c) = true \/ mem_path p (cf_files c) = true -> path_ok p = true) ->
+  (forall d td, q = QWalk d td -> odir w c d = true -> (maxlen (overlay_fs w c) < walk_fuel + List.length d)%nat) ->
+  (forall p, q = QGetSize p -> mem_path p (cf_dirs c) = true -> isdir (w_fs w) p = true) ->
+  (forall p cm, q = QRead p cm -> cm = METADATA \/ hash_ok w \/ HashOk w) ->
+  yields (exec_query q (Some c)) w (to_res (Core.record_answer (overlay_fs w c) q)).
+Proof. exact overlay_answers_all. Qed.
+
+(* the one place where the POSIX form fails: get_size of a directory that exists only in the overlay *)
+Theorem C04_overlay_get_size_of_an_overlay_only_directory : exists w c p,
+  BInv w /\ CInv w c /\ path_ok p = true /\
+  ~ yields (m_get_size p (Some c)) w (to_res (spec_answer_raw (overlay_fs w c) (QGetSize p))).
+Proof. exact overlay_get_size_dir_counterexample. Qed.
 
 Theorem C04_queries_read_only : forall q cf w w' r, exec_query q cf w = (w', r) -> same_but_view w w'.
 Proof. exact query_footprint. Qed.
